@@ -8,7 +8,8 @@ SchemaP == IF "SCHEMA" \in DOMAIN IOEnv THEN JsonDeserialize(IOEnv.SCHEMA).messa
 WOk(e) == e.out.tag = "ok"
 ClausesSchema(e) ==
   [ in_proto  |-> e.in.P # <<>>,
-    rust_matches_proto   |-> e.in.R = e.in.P,
+    \* (a message with a hand-written codec has no attribute table; the behavioural clauses below decide it)
+    rust_matches_proto   |-> e.in.R = e.in.P \/ ("Rhand" \in DOMAIN e.in /\ e.in.Rhand),
     python_matches_proto |-> e.in.Y = e.in.P ]
 ClausesWireDecode(e) ==
   LET T == e.in.type IN
